@@ -2,6 +2,7 @@ mod alloc;
 mod bench;
 mod common;
 mod pool;
+mod pure;
 mod stats;
 
 use common::{Out, RunStats};
@@ -39,6 +40,7 @@ fn main() {
                 match sc["kind"].as_str().unwrap_or("") {
                     "pool" => common::run_scenario(&sc, &mut out, &mut stats, pool::body),
                     "bench" => common::run_scenario(&sc, &mut out, &mut stats, bench::body),
+                    "pure" => pure::run(&sc, &mut out, &mut stats),
                     "stats" => stats::run(&sc, &mut out),
                     "alloc" => common::run_scenario(&sc, &mut out, &mut stats, alloc::body),
                     "fwd" => common::run_scenario(&sc, &mut out, &mut stats, alloc::fwd_body),
